@@ -20,6 +20,10 @@ type Case struct {
 	MapSalt  uint64  `json:"map_salt"`
 	// ExpandCheck: the shared Expand results are built with OptCheckForEach
 	ExpandCheck bool `json:"expand_check"`
+	// Pretouch: the shared world resolves its whole catalogue (one Content call
+	// on every body, shared remain bodies) before the tasks start; otherwise
+	// the tasks make the first calls themselves, concurrently.
+	Pretouch bool `json:"pretouch"`
 }
 
 type FileM struct {
